@@ -90,6 +90,11 @@ def main():
         meta["ran"].append({"error": "patch does not apply to /repo HEAD"})
         json.dump(meta, open(os.path.join(dst, "meta.json"), "w"), indent=1)
         sys.exit(2)
+    saved_ev = {}
+    for c in checks:
+        ep = os.path.join(ROOT, "evidence", c + ".json")
+        if os.path.exists(ep):
+            saved_ev[ep] = open(ep, "rb").read()
     try:
         for c in checks:
             t0 = time.time()
@@ -103,6 +108,9 @@ def main():
             meta["ran"].append(rec)
             print("%s %s with %s-%s applied: exit %d, %d VIOLATION line(s) %s" % (c, tier, pid, which, rc, len(viol), sigs[:4]))
     finally:
+        # evidence files must describe the unchanged tree, not a run against a seeded change
+        for ep, data in saved_ev.items():
+            open(ep, "wb").write(data)
         sh(["git", "checkout", "--", "."], "/repo")
         rc, out = sh(["git", "status", "--porcelain"], "/repo")
         if out.strip():
